@@ -185,6 +185,7 @@ class RouterInfoCache:
 
         # update the paths
         for address, router_info in snet_routers.items():
+            router_info.snet = new_snet
             for dnet in router_info.dnets:
                 self.path_info[(new_snet, dnet)] = self.path_info.pop((old_snet, dnet))
 
